@@ -378,7 +378,7 @@ def r19_underscore_assign(f):
         f.apply(edits, "R19")
 
 
-REROOT = [("std::fs::", "fs::"), ("std::mem::", "mem::"), ("std::thread::", "thread::"), ("std::path::", "path::"), ("std::env::", "env::"), ("std::process::", "process::")]
+REROOT = [("std::str::from_utf8", "strs::from_utf8"), ("std::fs::", "fs::"), ("std::mem::", "mem::"), ("std::thread::", "thread::"), ("std::path::", "path::"), ("std::env::", "env::"), ("std::process::", "process::")]
 
 
 def r17_reroot(f):
@@ -551,7 +551,13 @@ def r10_world(f, fn_names):
     edits.append((c[pc].pos, c[pc].pos, "%s Tracked(w): Tracked<&mut World>" % sep))
     for k in range(pc + 1, len(c) - 1):
         t = c[k]
-        if t.kind == "ident" and t.text in fn_names and c[k + 1].text == "(" and c[k - 1].text != "fn":
+        hit = False
+        if t.kind == "ident" and c[k + 1].text == "(" and c[k - 1].text != "fn":
+            if t.text in fn_names:
+                hit = True
+            elif c[k - 1].text == "::" and k >= 2 and (c[k - 2].text + "::" + t.text) in fn_names:
+                hit = True
+        if hit:
             cl = f.br[k + 1]
             sep = "" if c[cl - 1].text in (",", "(") else ", "
             edits.append((c[cl].pos, c[cl].pos, "%sTracked(w)" % sep))
